@@ -173,8 +173,8 @@ Proof. destruct c; unfold pause_plain; cc. Qed.
 
 Lemma calm_exit_ctx t c s : calm s (exit_ctx t c s).
 Proof.
-  unfold exit_ctx. eapply calm_trans; [|apply calm_pause_plain].
-  destruct (get_task t s) as [tk|] eqn:G; [|apply calm_refl]. apply (calm_set_task t tk); [exact G|reflexivity].
+  unfold exit_ctx. destruct (get_task t s) as [tk|] eqn:G; [|apply calm_pause_plain].
+  destruct (tk_cact tk); [eapply calm_trans; [|apply calm_pause_plain]|]; apply (calm_set_task t tk); [exact G|reflexivity|exact G|reflexivity].
 Qed.
 
 Lemma calm_fold {X} (f : st -> X -> st) l : (forall s x, calm s (f s x)) -> forall s, calm s (fold_left f l s).
